@@ -3,3 +3,4 @@
 pub mod math;
 pub mod tokens;
 pub mod access;
+pub mod timelock;
